@@ -154,6 +154,24 @@ def _seal_summary(F, seal):
         for e in r.events[ip + 1:]:
             if c08.is_call_on(e, 'WriteWords::write', BULK):
                 rec['straight'].append(e['args'][1])
+            if e['kind'] == 'call' and str(e['callee']).startswith('core::iter::') and str(e['callee']).endswith(('::try_for_each', '::for_each', '::try_fold', '::fold')):
+                # words written by a closure that an adaptor drives over a range: one trip per item
+                cbs = [x[1][1] for a in e.get('args_val') or [] if isinstance(a, tuple) for x in sym.subterms(a)
+                       if isinstance(x, tuple) and x and x[0] == 'agg' and isinstance(x[1], tuple) and x[1][0] == 'closure']
+                writes_per_call = None
+                for cd in cbs:
+                    cb = F.by_def.get(cd)
+                    _, cp = rules.evaluate(cb) if cb is not None else (None, None)
+                    ws = [[ce for ce in q.events if ce['kind'] == 'call' and ce['callee'].endswith('WriteWords::write')] for q in cp or [] if q.end == 'return']
+                    if ws and all(len(w) == 1 and (pow2._is_zero(c18.peel(w[0]['args'][1])) or sym.show(c18.peel(w[0]['args'][1])) == 'zero()') for w in ws):
+                        writes_per_call = 1
+                if writes_per_call == 1 and str(e['callee']).endswith(('::try_for_each', '::try_fold')):
+                    try:
+                        rec['trips'].append(effects.IterModel(r).length(e['args_val'][0]))
+                    except Exception:
+                        rec['trips'].append(None)
+                elif cbs:
+                    rec['loops_ok'] = False
             if e['kind'] == 'loop_enter':
                 trip = None
                 for pth, v in e['pre'].items():
